@@ -9,5 +9,6 @@ CONSTANTS
   NT <- NumText
   NTL <- NumTextLoc
   CV <- Convert
+  RV <- ReadVec
 INVARIANTS LawSwap
 CHECK_DEADLOCK FALSE
